@@ -7,7 +7,7 @@ import sympy as sp
 
 from .. import units as U
 from ..anf import is_zero, short
-from ..dfmodel import SeqV, DF_LIB, SymRange, LoopIdx
+from ..dfmodel import SeqV, DF_LIB, SymRange, LoopIdx, df_wrap
 from ..facts import (physics_seeds, KeyObj, KEYS21, CALC, V, T, c_intrinsic, interpolate_modes_roles)
 from ..libsum import lib_func, return_arity
 from ..model import dotted_name, src, body_wo_doc, is_logging_stmt
@@ -105,7 +105,7 @@ def setup(ctx, model, lattice=True, keys=None):
         "numpy.polyfit": polyfit, "numpy.polyval": polyval, "builtins.len": len_,
     })
     for kname in ("numpy.array", "range", "numpy.gradient"):
-        intr[kname] = (lambda g: (lambda ev, a, k: g(ev, a, k, None, None)))(DF_LIB[kname])
+        intr[kname] = df_wrap(DF_LIB[kname])
         intr["builtins." + kname] = intr[kname]
     calc.attrs["modulus_keys"] = Tup(ks, "list")
     ev = Ev(model, seeds, intr, ctx=ctx)
